@@ -168,8 +168,25 @@ impl<K> Policy<K> {
             return;
         }
 
-        let victim =
-            self.lru.peek_least_recent(lru::Region::Probation).unwrap();
+        let Some(victim) = self.lru.peek_least_recent(lru::Region::Probation)
+        else {
+            // The probation region is empty (its entries were promoted or
+            // removed), so there is no victim to compete with. Re-admit the
+            // key if the main region has room, otherwise treat it as having
+            // lost the duel.
+            let main_usage =
+                self.lru.probation_len() + self.lru.protected_len();
+            let main_limit = self.max_capacity - self.window_capacity;
+
+            if main_usage < main_limit {
+                self.lru
+                    .move_key_to_head_of_region(unpin, lru::Region::Probation);
+            } else if remove(unpin) {
+                self.lru.remove(unpin);
+            }
+
+            return;
+        };
 
         let (pinned_frequency, victim_frequency) = {
             let pinned_hash = build_hash.hash_one(unpin);
